@@ -605,6 +605,87 @@ example : assignPk { required := true, nullable := false, noneOk := false, defau
 example : assignPk { required := true, nullable := false, noneOk := false, default := none, hasCheck := false }
     (intValidate (fun _ => none) { minVal := some 0, maxVal := some 127, size := some 8, unsigned := some false }) (fun _ => true) (.int 5) (.int (-7)) = .error "ValueError" := by rfl
 
+/-! ### temporal attributes: the documented normalisation -/
+
+/-- **date attributes normalise.** Whatever is accepted, the value a date attribute holds is a plain date — in particular a
+    datetime is cut to its date (never stored as a datetime), for every datetime; strings go through `str2date` -/
+theorem C08_date_normalises (str2date : List Char → TRes) (hparse : ∀ s r, str2date s = .ok r → r.isDate = true) (v r : TVal)
+    (h : dateValidate str2date v = .ok r) : r.isDate = true := by
+  cases v <;> simp [dateValidate] at h
+  · subst h; rfl
+  · subst h; rfl
+  · exact hparse _ _ h
+
+theorem C08_date_of_datetime (str2date : List Char → TRes) (y m d h mi s us : Nat) :
+    dateValidate str2date (.datetime y m d h mi s us) = .ok (.date y m d) := rfl
+
+/-- a date attribute accepts exactly dates, datetimes and the strings `str2date` parses -/
+theorem C08_date_accepts (str2date : List Char → TRes) (v : TVal) :
+    (∃ r, dateValidate str2date v = .ok r) ↔
+      (∃ y m d, v = .date y m d) ∨ (∃ y m d h mi s us, v = .datetime y m d h mi s us) ∨ (∃ s r, v = .str s ∧ str2date s = .ok r) := by
+  cases v <;> simp [dateValidate]
+
+theorem C08_date_idem (str2date : List Char → TRes) (hparse : ∀ s r, str2date s = .ok r → r.isDate = true) (v r : TVal)
+    (h : dateValidate str2date v = .ok r) : dateValidate str2date r = .ok r := by
+  have hd := C08_date_normalises str2date hparse v r h
+  cases r <;> simp [TVal.isDate] at hd
+  rfl
+
+/-- **datetime attributes** accept a datetime or a parsable string and nothing else: a plain date is a TypeError
+    (the subclass relation is not symmetric) -/
+theorem C08_datetime_accepts (p : Nat) (str2datetime : List Char → TRes) (v : TVal) :
+    (∃ r, datetimeValidateC p str2datetime v = .ok r) ↔
+      (∃ y m d h mi s us, v = .datetime y m d h mi s us) ∨ (∃ s r, v = .str s ∧ str2datetime s = .ok r) := by
+  cases v <;> simp [datetimeValidateC]
+  rename_i s
+  cases str2datetime s <;> simp
+
+theorem C08_time_accepts (p : Nat) (str2time : List Char → TRes) (v : TVal) :
+    (∃ r, timeValidateC p str2time v = .ok r) ↔ (∃ h mi s us, v = .time h mi s us) ∨ (∃ s r, v = .str s ∧ str2time s = .ok r) := by
+  cases v <;> simp [timeValidateC]
+  rename_i s
+  cases str2time s <;> simp
+
+/-- the accepted time / datetime is the candidate with its microseconds rounded to the declared precision, all other fields kept -/
+theorem C08_time_value (p h mi s us : Nat) (str2time : List Char → TRes) :
+    timeValidateC p str2time (.time h mi s us) = .ok (.time h mi s (PonyVerif.Model.Store.roundedUs us p)) := rfl
+theorem C08_datetime_value (p y m d h mi s us : Nat) (f : List Char → TRes) :
+    datetimeValidateC p f (.datetime y m d h mi s us) = .ok (.datetime y m d h mi s (PonyVerif.Model.Store.roundedUs us p)) := rfl
+
+theorem roundedUs_idem' (us p : Nat) : PonyVerif.Model.Store.roundedUs (PonyVerif.Model.Store.roundedUs us p) p = PonyVerif.Model.Store.roundedUs us p := by
+  have closed : ∀ u, PonyVerif.Model.Store.roundedUs u p = if p = 0 then 0 else if p < 6 then u / 10 ^ (6 - p) * 10 ^ (6 - p) else u := by
+    intro u
+    unfold PonyVerif.Model.Store.roundedUs PonyVerif.Model.Store.roundMicrosT
+    by_cases h0 : p = 0
+    · simp [h0]; by_cases h : 0 = u <;> simp [h] <;> omega
+    · by_cases h6 : p < 6
+      · simp only [h0, h6, if_false, if_true]
+        by_cases h : u / 10 ^ (6 - p) * 10 ^ (6 - p) = u <;> simp [h]
+      · simp [h0, h6]
+  rw [closed (PonyVerif.Model.Store.roundedUs us p), closed us]
+  split
+  · rfl
+  · split
+    · rw [Nat.mul_div_cancel _ (Nat.pow_pos (by decide))]
+    · rfl
+
+/-- validation of temporal values is idempotent (a value read back and validated again is unchanged) -/
+theorem C08_time_idem (p h mi s us : Nat) (f : List Char → TRes) (r : TVal)
+    (hr : timeValidateC p f (.time h mi s us) = .ok r) : timeValidateC p f r = .ok r := by
+  simp only [timeValidateC, roundTimeT, Except.ok.injEq] at hr
+  subst hr
+  simp [timeValidateC, roundTimeT, roundedUs_idem']
+
+theorem C08_datetime_idem (p y m d h mi s us : Nat) (f : List Char → TRes) (r : TVal)
+    (hr : datetimeValidateC p f (.datetime y m d h mi s us) = .ok r) : datetimeValidateC p f r = .ok r := by
+  simp only [datetimeValidateC, roundTimeT, Except.ok.injEq] at hr
+  subst hr
+  simp [datetimeValidateC, roundTimeT, roundedUs_idem']
+
+example : dateValidate (fun _ => .error "ValueError") (.datetime 2020 1 2 10 30 15 0) = .ok (.date 2020 1 2) := rfl
+example : datetimeValidateC 6 (fun _ => .error "ValueError") (.date 2020 1 2) = .error "TypeError" := rfl
+example : timeValidateC 3 (fun _ => .error "ValueError") (.time 1 2 3 999999) = .ok (.time 1 2 3 999000) := by rfl
+
 /-! ### non-vacuity: concrete declarations and values -/
 example : intInit false { size := some 8, min := some 0 } = .ok { minVal := some 0, maxVal := some 127, size := some 8, unsigned := some false } := by rfl
 example : intValidate (fun _ => none) { minVal := some 0, maxVal := some 127, size := some 8, unsigned := some false } (.int (-5)) = .error "ValueError" := by rfl
